@@ -983,7 +983,7 @@ def check_property(pid, tier, res=None, vres=None, quiet=False):
 ALWAYS_PROBE = {'C10'}
 
 ASSUMPTIONS_COMMON = [
-    'Extraction rules R1-R23 incl. R7p (framework/extract.py, DESIGN.md 2.1) preserve the semantics of /repo/src; dropped items are unverified',
+    'Extraction rules R1-R24 incl. R7p (framework/extract.py, DESIGN.md 2.1) preserve the semantics of /repo/src; dropped items are unverified',
     'Trait contracts of Hash/Cipher/Dh/Random/CryptoResolver are ASSUMED for implementations outside the verified text (Kyber, custom resolvers); for resolvers/default.rs (incl. P-256, XChaChaPoly) and resolvers/ring.rs they are proved relative to ASSUMED contracts of the third-party crates (spec/deps/rustcrypto.rs, spec/deps/ring.rs)',
     'The standard algorithms (SHA-2, BLAKE2, ChaCha20-Poly1305, AES-256-GCM, X25519) are uninterpreted functions; randomness is a deterministic function of a hidden RNG state (gen_bytes/gen_next)',
     'Path-split verification (DESIGN.md 2.3): functions with @split cases are verified one case per query, the other cases cut by framework-inserted assume(false)',
